@@ -18,6 +18,15 @@ def lab(ex):
 
 
 def arg(ctx, name):
+    """the argument a spec calls `name`: by the PUBLISHED position of that parameter (a program passes arguments by
+    position; the source may call the parameter differently)"""
+    from .published import PUBLISHED_PARAMS
+    from sqv.calls import Pack
+    names = PUBLISHED_PARAMS.get(ctx.get('builtin_name'), [])
+    if name in names and names.index(name) < len(ctx.get('args', [])):
+        v = ctx['args'][names.index(name)]
+        if not isinstance(v, Pack):
+            return v
     return ctx['env'].vars.get(name)
 
 
